@@ -103,6 +103,24 @@ def generate(rng, tier):
             recs.append(_cells(rng, n, pool))
         yield {"fam": "read", "gen": "random", "delim": rng.choice(DELIMS), "hh": hh, "src": rng.choice(SOURCES),
                "records": recs, "quoting": rng.choice([0, 0, 1, 2]), "lt": rng.choice(["\r\n", "\n", "\r"])}
+    # 5b. long files whose columns change character late: a long uniform prefix (all text / all ints / all blank) followed by
+    #     cells of another kind — the classification of a cell must not depend on the cells above it
+    for _ in range(40 if not thorough else 600):
+        nrec = rng.choice([129, 130, 200, 257, 300, 520])
+        w = rng.choice([1, 2, 3])
+        kinds = [rng.choice(["text", "int", "blank", "float"]) for _ in range(w)]
+        sample = {"text": ["x", "abc", "y z"], "int": ["1", " 42 ", "-7"], "blank": ["", " "], "float": ["2.5", "7e2", "nan"]}
+        switch = rng.choice([nrec - 1, nrec - 3, 128, 129, nrec // 2])
+        hh = rng.random() < 0.7
+        recs = [["c%d" % i for i in range(w)]] if hh else []
+        for r in range(nrec):
+            row = []
+            for c in range(w):
+                k = kinds[c] if r < switch else rng.choice(["text", "int", "blank", "float"])
+                row.append(rng.choice(sample[k]))
+            recs.append(row)
+        yield {"fam": "read", "gen": "random", "delim": rng.choice(DELIMS), "hh": hh, "src": rng.choice(SOURCES),
+               "records": recs, "quoting": 0, "lt": rng.choice(["\r\n", "\n"])}
     # 6. random raw soup with every delimiter (malformed stream: stray quotes, mixed line ends)
     soup = ["a", "1", " ", '"', "\n", "\r\n", "\r", "é", "5.", "x y"]
     for _ in range(2000 if not thorough else 40000):
